@@ -25,7 +25,13 @@
    Contract (help texts of cmd/deposit*, doc comment of GetFullDeposit, eth2util/deposit): invariants below.
    CredsVerbatim = TRUE is deviation D1 of runDepositSign as coded: what the operator types for --withdrawal-addresses
    is signed verbatim as the 32-byte withdrawal credentials (a 20-byte address is refused, any prefix is accepted whatever
-   the lock's compounding flag).  Defect switches plausible defects on for the control configurations. *)
+   the lock's compounding flag).  Deviation D2 (a validator public key shorter than 48 bytes makes `deposit sign` panic
+   instead of returning an error) only concerns how the refusal surfaces: constant AllowPanic of DepositFlowTrace.
+   Defect switches plausible defects on for the control configurations.
+
+   Deliberately left open: the order in which the files of one fetch are written (Go map order), the order of the entries
+   within a file (compared as bags), what the API does with what is posted (it is the environment), the result of
+   ReadDepositDataFiles on a directory without files. *)
 EXTENDS Integers, Sequences, FiniteSets, TLC
 
 CONSTANTS N, T, NV,        \* operators 1..N (share index = operator index), threshold, validators 1..NV
